@@ -21,6 +21,10 @@ TYPABLE = [
     "[H]{[>][<]CC([>])C(=O)OC[<]}|gauss(200, 30)|[H]",
     "CC{[$][$]CC[$],[$]CC(C)[$][$]}|uniform(40, 160)|CC",
 ]
+# chemistry beyond the polymers above: hetero-aromatic rings, halides, ions, sulfur, nitro, nitrile ... (partial assignments are acceptable here, wrong ones are not)
+DIVERSE = ["CCn1ccnc1", "c1ccncc1", "CCS", "CCCl", "CCF", "CC#N", "CC(=O)NC", "CC(=O)O", "c1ccccc1O", "CCSCC", "C1CCOC1", "CC(=O)C", "CC=C", "CC#C", "c1ccsc1",
+           "CS(=O)C", "Nc1ccccc1", "OCCO", "c1ccc2ccccc2c1", "CC[N+](=O)[O-]", "CCI", "[Li+]", "[Na+]", "[K+]", "CNC", "CN(C)C", "CC(N)C(=O)O", "CSSC", "c1ccoc1",
+           "NC=O", "CC(=O)[O-]", "C[NH3+]", "CCn1ccnc1C", "CC{[>][<]CC([>])n1ccnc1[<]}|gauss(300, 10)|C"]
 FIXED = ["CCO", "COCCOCCOCC(=O)OC", "CCCCCCCC", "CC(C)C(=O)OC", "c1ccccc1CC", "CC(=O)N", "CCN"]
 
 
@@ -163,6 +167,25 @@ def work(task):
                                  "detail": {"history": seq[:step + 1]}, "input": {"text": text}})
                     break
             distinct.add(tuple(seq))
+        # representation invariant of the assigner: type names <-> numeric ids is a bijection, and every type with parameters is reachable by name, by id and
+        # by id-of-name (get_ffparam(get_type(x)) is how every atom's parameters are looked up)
+        if task.get("invariant"):
+            for cfgname, (sm, nbf) in (("default", (None, None)), ("copies", (par, itp))):
+                a = get_assignment_class(sm, nbf)
+                evals += 1
+                KI = "C20/SMARTS_ASSIGNMENTS.__init__/post"
+                ids = list(a._type_dict.values())
+                if len(set(ids)) != len(ids) or any(a._type_dict_rev.get(i) != t for t, i in a._type_dict.items()) or len(a._type_dict_rev) != len(a._type_dict):
+                    clash = [(t, i, a._type_dict_rev.get(i)) for t, i in a._type_dict.items() if a._type_dict_rev.get(i) != t][:4]
+                    viol.append({"key": KI + "[type-ids-are-a-bijection]", "clause": "numeric type ids and type names determine each other (id -> name -> id and name -> id -> name are identities)",
+                                 "detail": {"files": cfgname, "types": len(a._type_dict), "ids": len(set(ids)), "first_clashes": clash}, "input": {"files": cfgname}})
+                for t in a._type_param:
+                    if a.get_ffparam(a._type_dict[t]) is not a._type_param[t] or a.get_ffparam(a.get_type(t)) is not a._type_param[t] or a.get_type(a.get_type(t)) != t:
+                        viol.append({"key": KI + "[lookup-by-name-and-id-agree]", "clause": "looking a type up by id or by id-of-name gives that type's own parameter set (name -> id -> name is the identity)",
+                                     "detail": {"files": cfgname, "type": t}, "input": {"files": cfgname, "type": t}})
+                        break
+                if set(a._rule_dict.values()) - set(a._type_dict):
+                    viol.append({"key": KI + "[every-rule-names-a-known-type]", "clause": "every SMARTS rule names a type that has an id", "detail": {}, "input": {"files": cfgname}})
         # a partially generated molecule is refused
         with warnings.catch_warnings():
             warnings.simplefilter("ignore")
@@ -188,11 +211,13 @@ def run(tier="quick", seed=0):
     hist = 6 if tier == "quick" else 40
     tasks = [{"texts": [t], "seed": seed + i, "renumber": ren, "histories": hist, "typable": True} for i, t in enumerate(TYPABLE)]
     tasks += [{"texts": FIXED[i:i + 3], "seed": seed + 50 + i, "renumber": ren, "histories": hist, "typable": True} for i in range(0, len(FIXED), 3)]
-    tasks += [{"texts": ["CC[Si](C)(C)C", "CCBr", "C[N+](C)(C)C"], "seed": seed + 90, "renumber": 1, "histories": 0, "typable": False}]
+    tasks += [{"texts": ["CC[Si](C)(C)C", "CCBr", "C[N+](C)(C)C"], "seed": seed + 90, "renumber": 1, "histories": 0, "typable": False, "invariant": True}]
+    tasks += [{"texts": DIVERSE[i:i + 6], "seed": seed + 120 + i, "renumber": 1 if tier == "quick" else 6, "histories": 0, "typable": False} for i in range(0, len(DIVERSE), 6)]
     res = harness.run_tasks("monitor.drive_C20", "work", tasks, timeout=900 if tier == "quick" else 3000)
     out = harness.merge(res, rule="generated molecules of typable chemistry (styrene / acrylate / ethylene / propylene / ethylene-oxide chains, small esters, amides, "
                         "amines) x random atom renumberings x random histories of typing calls over {default files, verbatim copies, one copy, an edited copy with all "
-                        "charges zero}; chemistry the parameter set does not cover must raise the dedicated error with the partial assignment. "
+                        "charges zero}; small molecules of diverse chemistry (hetero-aromatics, halides, ions, sulfur, nitro, nitrile: element masses, numbering); the assigner's "
+                        "representation invariant (type name <-> id bijection, look-ups by name / id agree) on the default files and on copies; chemistry the parameter set does not cover must raise the dedicated error with the partial assignment. "
                         "distinct = molecules and histories")
     out["assumptions"] = ["bounded layer: only the enumerated molecules, renumberings and histories; RDKit substructure matching is trusted"]
     return out
